@@ -233,6 +233,15 @@ class _Inliner:
                 h.body = self._block(h.body, cls, selfname, owner)
         if isinstance(st, (ast.FunctionDef, ast.AsyncFunctionDef, ast.ClassDef)):
             return [st]
+        # `x = A if c else B` with a helper call inside A or B: the same statement as `if c: x = A` / `else: x = B`
+        if isinstance(st, (ast.Assign, ast.Return)) and isinstance(st.value, ast.IfExp) and (
+                self._has_target(st.value.body, cls, selfname, owner) or self._has_target(st.value.orelse, cls, selfname, owner)):
+            a, b = copy.copy(st), copy.copy(st)
+            a.value, b.value = st.value.body, st.value.orelse
+            if isinstance(st, ast.Assign):
+                b.targets = copy.deepcopy(st.targets)
+            new = ast.copy_location(ast.If(test=st.value.test, body=[a], orelse=[b]), st)
+            return self._stmt(new, cls, selfname, owner)
         # expressions evaluated exactly once, before the statement's own effect
         if isinstance(st, (ast.Assign, ast.AnnAssign, ast.AugAssign, ast.Return, ast.Expr)):
             holder, field = st, "value"
